@@ -3,6 +3,7 @@
 package otter
 
 import (
+	"context"
 	"errors"
 	"math"
 	"os"
@@ -126,6 +127,11 @@ func ghost_calls_load() int        { panic("ghost") }
 func ghost_ret_load_0[V any]() V   { panic("ghost") }
 func ghost_ret_load_1() error      { panic("ghost") }
 func ghost_calls_afterFinish() int { panic("ghost") }
+func ghost_calls_increment() int   { panic("ghost") }
+func ghost_calls_SaveCacheTo() int  { panic("ghost") }
+func ghost_calls_LoadCacheFrom() int { panic("ghost") }
+func ghost_last_SaveCacheTo_result() error  { panic("ghost") }
+func ghost_last_LoadCacheFrom_result() error { panic("ghost") }
 func ghost_calls_fn() int          { panic("ghost") }
 func ghost_ret_fn() error          { panic("ghost") }
 
@@ -421,7 +427,7 @@ func estOf[K comparable](s *sketch[K], k K) uint64 {
 //@ macro ONDEL = ghost_calls_onDeletion(), ghost_calls_notifyDeletion()
 //@ macro WHOOKS = ghost_calls_ExpireAfterCreate(), ghost_ret_ExpireAfterCreate(), ghost_calls_ExpireAfterUpdate(), ghost_ret_ExpireAfterUpdate(), ghost_calls_weigher(), ghost_ret_weigher(), $RHOOKS
 // footprint of a maintenance run: the policies, the wheel, the table (evictions), and the removal notifications of the entries it evicts
-//@ macro MAINT0 = node::state, node::queueType, node::prev, node::next, node::prevExp, node::nextExp, ghost_tbl(*), ghost_calls(*), ghost_inWheel(*), ghost_inDeque(*), policy::weightedSize, policy::windowMaximum, policy::windowWeightedSize, policy::mainProtectedMaximum, policy::mainProtectedWeightedSize, policy::stepSize, policy::adjustment, policy::hitsInSample, policy::missesInSample, policy::previousSampleHitRate, Variable::*, Linked::*, sketch::*, []uint64::*, cache::drainStatus, cache::evictionMutex, ghost_calls_evictNode(), ghost_calls_rand(), ghost_ret_rand(), $EVLOG, $ONDEL, $ATOMICEV
+//@ macro MAINT0 = node::state, node::queueType, node::prev, node::next, node::prevExp, node::nextExp, ghost_tbl(*), ghost_calls(*), ghost_inWheel(*), ghost_inDeque(*), policy::weightedSize, policy::windowMaximum, policy::windowWeightedSize, policy::mainProtectedMaximum, policy::mainProtectedWeightedSize, policy::stepSize, policy::adjustment, policy::hitsInSample, policy::missesInSample, policy::previousSampleHitRate, Variable::*, Linked::*, sketch::*, ghost_calls_increment(), []uint64::*, cache::drainStatus, cache::evictionMutex, ghost_calls_evictNode(), ghost_calls_rand(), ghost_ret_rand(), $EVLOG, $ONDEL, $ATOMICEV
 // ... plus the call log of the maintenance steps and the clock reading of the sweep
 //@ macro MAINT = $MAINT0, ghost_calls_maintenance(), ghost_calls_runTask(), ghost_calls_expireNodes(), ghost_calls_evictNodes(), ghost_calls_DeleteExpired(), ghost_calls_deleteExpiredFromBucket(), ghost_calls_expireNode(), ghost_now(), ghost_clockRead(), task::*
 
@@ -441,14 +447,17 @@ func estOf[K comparable](s *sketch[K], k K) uint64 {
 //@   ensures [clock-stable] pre(ghost_clockRead()) ==> ghost_clockRead() && ghost_now() == pre(ghost_now())
 //@   ensures [events-outside-the-buffer-untouched] !pre(ghost_buffered(tstar)) ==> tstar.n == pre(tstar.n) && tstar.old == pre(tstar.old) && tstar.writeReason == pre(tstar.writeReason) && tstar.deletionCause == pre(tstar.deletionCause)
 
-//@ macro ACCESSFX = node::queueType, node::prev, node::next, node::prevExp, node::nextExp, ghost_inWheel(*), ghost_inDeque(*), policy::windowWeightedSize, policy::mainProtectedWeightedSize, policy::hitsInSample, Linked::*, sketch::*, []uint64::*
+//@ macro ACCESSFX = node::queueType, node::prev, node::next, node::prevExp, node::nextExp, ghost_inWheel(*), ghost_inDeque(*), policy::windowWeightedSize, policy::mainProtectedWeightedSize, policy::hitsInSample, Linked::*, sketch::*, ghost_calls_increment(), []uint64::*
 
 //@ func (*policy).access : C05 C18
 //@   requires ghost_hasSize() && wfPolicy(p) && n != nil
-//@   modifies node::queueType, $LINKFX, ghost_inDeque(*), p.mainProtectedWeightedSize, p.hitsInSample, sketch::*, []uint64::*
+//@   modifies node::queueType, $LINKFX, ghost_inDeque(*), p.mainProtectedWeightedSize, p.hitsInSample, sketch::*, ghost_calls_increment(), []uint64::*
 //@   ensures [policy-wf-kept] wfPolicy(p)
+//@   ensures [C05:an-access-moves-no-entry-into-or-out-of-the-window] (ghost_queueType(n) == node.InWindowQueue) == pre(ghost_queueType(n) == node.InWindowQueue)
+//@   ensures [C18:every-access-is-recorded-once] ghost_calls_increment() == pre(ghost_calls_increment()) + 1
 //@   ensures [C05:a-read-removes-nothing] p.weightedSize == pre(p.weightedSize)
 //@   ensures [C05:accessed-node-stays-linked-in-its-queue] pre(ghost_inDeque(queueOf(p, n), n)) ==> ghost_inDeque(queueOf(p, n), n)
+//@   ensures [C05:a-stale-access-tracks-nothing] pre(!ghost_inDeque(p.window, n) && !ghost_inDeque(p.probation, n) && !ghost_inDeque(p.protected, n)) ==> !ghost_inDeque(p.window, n) && !ghost_inDeque(p.probation, n) && !ghost_inDeque(p.protected, n) && p.mainProtectedWeightedSize == pre(p.mainProtectedWeightedSize) && p.windowWeightedSize == pre(p.windowWeightedSize) && ghost_queueType(n) == pre(ghost_queueType(n))
 
 //@ func (*cache).onAccess : C05 C13
 //@   requires cfg(c) && n != nil
@@ -692,6 +701,7 @@ func estOf[K comparable](s *sketch[K], k K) uint64 {
 //@   ensures [len-kept] len(s.table) == pre(len(s.table)) && s.blockMask == pre(s.blockMask)
 
 //@ func (*sketch).increment : C18
+//@   counted
 //@   var hstar uint64
 //@   requires s.isNotInitialized() || wfSketch(s)
 //@   modifies s.table[*], s.size
@@ -839,6 +849,7 @@ func estOf[K comparable](s *sketch[K], k K) uint64 {
 //@   requires cfg(c)
 //@   modifies $MAINT, $EVLOG, $ONDEL, ghost_queued(), ghost_calls_performCleanUp(), ghost_calls_afterWriteTask(), ghost_calls_runTask(), ghost_calls_getTask(), task::*, ghost_buffered(*)
 //@   site afterWriteTask: requires [C05:delete-event-carries-the-removed-node] ghost_last_getTask_result[K, V]() != nil && ghost_last_getTask_result[K, V]().n == deleted && ghost_last_getTask_result[K, V]().writeReason == deleteReason && ghost_last_getTask_result[K, V]().deletionCause == pickCause(live(deleted, nowNano), CauseInvalidation, CauseExpiration)
+//@   site runTask: requires [C06:directly-applied-delete-event-carries-the-removed-node-and-a-truthful-cause] ghost_last_getTask_result[K, V]() != nil && ghost_last_getTask_result[K, V]().n == deleted && ghost_last_getTask_result[K, V]().writeReason == deleteReason && ghost_last_getTask_result[K, V]().deletionCause == pickCause(live(deleted, nowNano), CauseInvalidation, CauseExpiration)
 //@   ensures [C05:nothing-removed-nothing-told] deleted == nil ==> ghost_calls_afterWriteTask() == pre(ghost_calls_afterWriteTask()) && ghost_calls_runTask() == pre(ghost_calls_runTask()) && ghost_calls_onDeletion() == pre(ghost_calls_onDeletion())
 //@   ensures [C06:invalidation-reported-without-maintenance] deleted != nil && !c.withMaintenance && c.onDeletion != nil ==> ghost_calls_onDeletion() == pre(ghost_calls_onDeletion()) + 1 && same(ghost_arg_onDeletion_1[V](), ghost_value(deleted))
 //@   ensures [C05:one-delete-event-per-removal] deleted != nil && c.withMaintenance ==> (alreadyLocked ==> ghost_calls_runTask() == pre(ghost_calls_runTask()) + 1 && ghost_last_runTask_t[K, V]() == ghost_last_getTask_result[K, V]() && ghost_calls_afterWriteTask() == pre(ghost_calls_afterWriteTask())) && (!alreadyLocked ==> ghost_calls_afterWriteTask() == pre(ghost_calls_afterWriteTask()) + 1 && ghost_last_afterWriteTask_t[K, V]() == ghost_last_getTask_result[K, V]())
@@ -885,7 +896,7 @@ func estOf[K comparable](s *sketch[K], k K) uint64 {
 //@   ensures [C12:entry-deadline-is-node-deadline] r1 && c.withExpiration ==> r0.ExpiresAtNano == ghost_expiresAt(ghost_tbl(c.hashmap, key))
 //@   ensures [C20:quiet] ghost_hits() == pre(ghost_hits()) && ghost_misses() == pre(ghost_misses())
 
-//@ func (*cache).set : C01 C03 C06 C09 C20 C05 C13
+//@ func (*cache).set : C01 C03 C06 C09 C20 C05 C13 C07 C04
 //@   inline verified on its own and inlined into Set / SetIfAbsent
 //@   mode seq,itf
 //@   requires cfg(c) && c.singleflight != nil
@@ -902,6 +913,7 @@ func estOf[K comparable](s *sketch[K], k K) uint64 {
 //@   ensures [C09:write-clears-call] lpend(ghost_lpNew(c.hashmap)) != lpend(ghost_lpCur(c.hashmap)) && c.singleflight.isInitialized.Load() ==> lpend(ghost_calls(c.singleflight.calls, key)) == nil
 //@   ensures [C08:record-kept-when-nothing-written] lpend(ghost_lpNew(c.hashmap)) == lpend(ghost_lpCur(c.hashmap)) ==> lpend(ghost_calls(c.singleflight.calls, key)) == lp(ghost_calls(c.singleflight.calls, key))
 //@   ensures [C20:quiet] ghost_hits() == pre(ghost_hits()) && ghost_misses() == pre(ghost_misses())
+//@   ensures [clock-stable] pre(ghost_clockRead()) ==> ghost_clockRead() && ghost_now() == pre(ghost_now())
 
 //@ func (*cache).Set : C01 C03 C06 C09
 //@   requires cfg(c) && c.singleflight != nil
@@ -910,6 +922,7 @@ func estOf[K comparable](s *sketch[K], k K) uint64 {
 //@   ensures [C01:replaced-value-returned] lp(live(ghost_tbl(c.hashmap, key), ghost_now())) ==> !r1 && same(r0, lp(ghost_value(ghost_tbl(c.hashmap, key))))
 //@   ensures [C01:installs] lpend(ghost_lpNew(c.hashmap)) != nil && same(ghost_value(lpend(ghost_lpNew(c.hashmap))), value)
 //@   ensures [wiring-kept] pre(wired(c)) ==> wired(c)
+//@   ensures [clock-stable] pre(ghost_clockRead()) ==> ghost_clockRead() && ghost_now() == pre(ghost_now())
 
 //@ func (*cache).SetIfAbsent : C01 C03 C06 C09
 //@   requires cfg(c) && c.singleflight != nil
@@ -917,8 +930,9 @@ func estOf[K comparable](s *sketch[K], k K) uint64 {
 //@   ensures [C03:expired-or-missing-reported-absent] !lp(live(ghost_tbl(c.hashmap, key), ghost_now())) ==> r1 && same(r0, value) && lpend(ghost_lpNew(c.hashmap)) != nil && same(ghost_value(lpend(ghost_lpNew(c.hashmap))), value)
 //@   ensures [C01:present-kept] lp(live(ghost_tbl(c.hashmap, key), ghost_now())) ==> !r1 && same(r0, lp(ghost_value(ghost_tbl(c.hashmap, key)))) && lpend(ghost_lpNew(c.hashmap)) == lpend(ghost_lpCur(c.hashmap))
 //@   ensures [wiring-kept] pre(wired(c)) ==> wired(c)
+//@   ensures [clock-stable] pre(ghost_clockRead()) ==> ghost_clockRead() && ghost_now() == pre(ghost_now())
 
-//@ func (*cache).Invalidate : C01 C03 C06 C09 C20 C05 C13
+//@ func (*cache).Invalidate : C01 C03 C06 C09 C20 C05 C13 C07 C04
 //@   mode seq,itf
 //@   requires cfg(c) && c.singleflight != nil
 //@   modifies *
@@ -963,7 +977,7 @@ func estOf[K comparable](s *sketch[K], k K) uint64 {
 //@   ensures [C09:eviction-clears-call] c.singleflight.isInitialized.Load() ==> lpend(ghost_calls(c.singleflight.calls, ghost_key(n))) == nil
 //@   ensures [C05:removed-node-retired] result != nil && c.withMaintenance && lp(alive(n)) ==> lpend(ghost_state(n)) == 1
 
-//@ func (*cache).doCompute : C01 C03 C06 C09 C20 C05 C08 C13
+//@ func (*cache).doCompute : C01 C03 C06 C09 C20 C05 C08 C13 C07 C04
 //@   mode seq,itf
 //@   panics
 //@   inline verified on its own and inlined into Compute / ComputeIfAbsent / ComputeIfPresent (their wrapper closures are executed concretely)
@@ -1102,6 +1116,7 @@ func estOf[K comparable](s *sketch[K], k K) uint64 {
 //@   ensures [C08:loader-invoked-once] ghost_calls_load() == pre(ghost_calls_load()) + 1
 //@   ensures [C08:finish-always] ghost_calls_afterFinish() == pre(ghost_calls_afterFinish()) + 1
 //@   ensures [C10:error-recorded] c.err == err && c.isNotFound == errors.Is(err, ErrNotFound)
+//@   ensures on-panic [C20:a-loader-panic-is-returned-as-an-error-never-raised-past-the-load-accounting] false
 //@   ensures [C10:loader-outcome-recorded-unchanged] ghost_calls_newPanicError() == pre(ghost_calls_newPanicError()) ==> err == ghost_ret_load_1() && same(c.value, ghost_ret_load_0[V]())
 //@   own-modifies c.value, c.err, c.isNotFound, ghost_calls_load(), ghost_calls_newPanicError()
 
@@ -1116,7 +1131,7 @@ func estOf[K comparable](s *sketch[K], k K) uint64 {
 //@   modifies ghost_wgDone(c), ghost_released(c), c.wg
 //@   ensures [C08:release-once] ghost_wgDone(c) == pre(ghost_wgDone(c)) + pickInt(c.isFake, 0, 1) && (!c.isFake ==> ghost_released(c))
 
-//@ func (*cache).afterDeleteCall : C09 C10 C08 C11 C06 C01 C03 C13 C12
+//@ func (*cache).afterDeleteCall : C09 C10 C08 C11 C06 C01 C03 C13 C12 C07 C04
 //@   mode seq,itf
 //@   requires cfg(c) && c.singleflight != nil && cl != nil && c.singleflight.calls != nil && c.singleflight.isInitialized.Load()
 //@   modifies $CACHEFX0, ghost_wgDone(cl), ghost_released(cl), cl.wg
@@ -1126,6 +1141,8 @@ func estOf[K comparable](s *sketch[K], k K) uint64 {
 //@   ensures @seq [C08:removes-only-its-own-record] lpend(ghost_calls(c.singleflight.calls, cl.key)) == pickCall(!cl.isFake && pre(ghost_calls(c.singleflight.calls, cl.key)) == cl, nil, pre(ghost_calls(c.singleflight.calls, cl.key)))
 //@   ensures [C11:failed-reload-reschedules-refresh] cl.err != nil && !cl.isNotFound && cl.isRefresh && lpend(ghost_lpCur(c.hashmap)) != nil && c.withRefresh ==> ghost_calls_RefreshAfterReloadFailure() == pre(ghost_calls_RefreshAfterReloadFailure()) + 1
 //@   ensures [C10:success-installs-value] lpend(ghost_lpNew(c.hashmap)) != lpend(ghost_lpCur(c.hashmap)) && lpend(ghost_lpNew(c.hashmap)) != nil ==> cl.err == nil && !cl.isNotFound && same(ghost_value(lpend(ghost_lpNew(c.hashmap))), cl.value) && same(ghost_key(lpend(ghost_lpNew(c.hashmap))), cl.key)
+//@   ensures @seq [C10:successful-load-is-cached] cl.err == nil && !cl.isNotFound && (cl.isFake || pre(ghost_calls(c.singleflight.calls, cl.key)) == cl) ==> lpend(ghost_lpNew(c.hashmap)) != nil && lpend(ghost_lpNew(c.hashmap)) != lpend(ghost_lpCur(c.hashmap)) && same(ghost_value(lpend(ghost_lpNew(c.hashmap))), cl.value) && same(ghost_key(lpend(ghost_lpNew(c.hashmap))), cl.key)
+//@   ensures @seq [C10:notfound-from-its-own-call-removes-the-entry] cl.isNotFound && (cl.isFake || pre(ghost_calls(c.singleflight.calls, cl.key)) == cl) ==> lpend(ghost_lpNew(c.hashmap)) == nil
 //@   ensures [C10:failure-leaves-cache-unchanged] cl.err != nil && !cl.isNotFound ==> lpend(ghost_lpNew(c.hashmap)) == lpend(ghost_lpCur(c.hashmap))
 //@   ensures [C10:notfound-caches-nothing] cl.isNotFound ==> lpend(ghost_lpNew(c.hashmap)) == nil || lpend(ghost_lpNew(c.hashmap)) == lpend(ghost_lpCur(c.hashmap))
 //@   ensures [C11:failed-reload-keeps-expiry] cl.err != nil && !cl.isNotFound && lpend(ghost_lpCur(c.hashmap)) != nil && c.withExpiration ==> lpend(ghost_expiresAt(ghost_tbl(c.hashmap, cl.key))) == lp(ghost_expiresAt(ghost_tbl(c.hashmap, cl.key)))
@@ -1150,7 +1167,7 @@ func estOf[K comparable](s *sketch[K], k K) uint64 {
 // ---------------------------------------------------------------------------------------------
 
 //@ macro EVICTFX = cb_n.state, node::queueType, node::prev, node::next, node::prevExp, node::nextExp, ghost_inWheel(*), ghost_inDeque(*), policy::weightedSize, policy::windowWeightedSize, policy::mainProtectedWeightedSize, Linked::*, ghost_tbl(*), ghost_calls(*), $EVLOG, $ONDEL, $ATOMICEV
-//@ macro POLFX = node::state, node::queueType, node::prev, node::next, node::prevExp, node::nextExp, ghost_inWheel(*), ghost_inDeque(*), policy::weightedSize, policy::windowWeightedSize, policy::mainProtectedWeightedSize, policy::hitsInSample, policy::missesInSample, Linked::*, sketch::*, []uint64::*, ghost_tbl(*), ghost_calls(*), $EVLOG, $ONDEL, $ATOMICEV, ghost_calls_rand(), ghost_ret_rand()
+//@ macro POLFX = node::state, node::queueType, node::prev, node::next, node::prevExp, node::nextExp, ghost_inWheel(*), ghost_inDeque(*), policy::weightedSize, policy::windowWeightedSize, policy::mainProtectedWeightedSize, policy::hitsInSample, policy::missesInSample, Linked::*, sketch::*, ghost_calls_increment(), []uint64::*, ghost_tbl(*), ghost_calls(*), $EVLOG, $ONDEL, $ATOMICEV, ghost_calls_rand(), ghost_ret_rand()
 
 //@ func newPolicy : C04 C05
 //@   fresh
@@ -1221,7 +1238,7 @@ func estOf[K comparable](s *sketch[K], k K) uint64 {
 //@   ensures [C07:uncounted-exactly-once] p.weightedSize == pre(p.weightedSize) - pickU64(pre(ghost_state(n)) != 2, uint64(weightOf(n)), 0)
 //@   ensures [policy-wf-kept] wfPolicy(p)
 
-//@ func (*policy).add : C04 C05 C07
+//@ func (*policy).add : C04 C05 C07 C18
 //@   requires ghost_hasSize() && ghost_hasState() && n != nil && wfPolicy(p) && p.maximum <= 1<<62
 //@   modifies $POLFX, ghost_calls_evictNode()
 //@   callback evictNode: requires [C07:overflow-justified] p.weightedSize > p.maximum || uint64(weightOf(cb_n)) > p.maximum
@@ -1232,13 +1249,14 @@ func estOf[K comparable](s *sketch[K], k K) uint64 {
 //@   callback evictNode: ensures [C06:one-notification-per-eviction] $EVDELTA == pre($EVDELTA)
 //@   ensures [C04:oversize-not-retained] pre(alive(n)) && uint64(weightOf(n)) > p.maximum ==> ghost_calls_evictNode() == pre(ghost_calls_evictNode()) + 1
 //@   ensures [C07:fits-not-evicted] uint64(weightOf(n)) <= p.maximum ==> ghost_calls_evictNode() == pre(ghost_calls_evictNode())
+//@   ensures [C18:every-arrival-is-recorded-once] ghost_calls_increment() == pre(ghost_calls_increment()) + 1
 //@   ensures [C05:add-links-alive-node] pre(alive(n)) && uint64(weightOf(n)) <= p.maximum ==> ghost_inDeque(p.window, n)
 //@   ensures [C05:out-of-order-add-not-linked] !pre(alive(n)) ==> ghost_calls_evictNode() == pre(ghost_calls_evictNode())
 //@   ensures [C04:added-weight-counted-exactly-once] ghost_calls_evictNode() == pre(ghost_calls_evictNode()) ==> p.weightedSize == pre(p.weightedSize) + uint64(weightOf(n))
 //@   ensures [C06:evictions-notified-one-to-one] $EVDELTA == pre($EVDELTA)
 //@   ensures [policy-wf-kept] wfPolicy(p)
 
-//@ func (*policy).update : C04 C05 C07
+//@ func (*policy).update : C04 C05 C07 C18
 //@   requires ghost_hasSize() && ghost_hasState() && n != nil && old != nil && n != old && wfPolicy(p)
 //@   modifies $POLFX, ghost_calls_evictNode()
 //@   callback evictNode: requires [C07:overflow-justified] p.weightedSize > p.maximum || uint64(weightOf(cb_n)) > p.maximum
@@ -1249,6 +1267,7 @@ func estOf[K comparable](s *sketch[K], k K) uint64 {
 //@   callback evictNode: ensures [C06:one-notification-per-eviction] $EVDELTA == pre($EVDELTA)
 //@   ensures [C04:oversize-not-retained] uint64(weightOf(n)) > p.maximum ==> ghost_calls_evictNode() == pre(ghost_calls_evictNode()) + 1
 //@   ensures [C07:fits-not-evicted] uint64(weightOf(n)) <= p.maximum ==> ghost_calls_evictNode() == pre(ghost_calls_evictNode())
+//@   ensures [C18:an-update-that-keeps-the-entry-in-a-regular-position-is-recorded-once] ghost_calls_increment() == pre(ghost_calls_increment()) + pickInt(ghost_calls_evictNode() == pre(ghost_calls_evictNode()) && !(ghost_queueType(n) == node.InWindowQueue && uint64(weightOf(n)) > p.windowMaximum), 1, 0)
 //@   ensures [C05:update-transplants] pre(alive(n)) && uint64(weightOf(n)) <= p.maximum ==> ghost_inDeque(queueOf(p, n), n)
 //@   ensures [C05:old-unlinked-and-dead] ghost_state(old) == 2
 //@   ensures [C04:updated-weight-counted-exactly-once] ghost_calls_evictNode() == pre(ghost_calls_evictNode()) ==> p.weightedSize == pre(p.weightedSize) + uint64(weightOf(n)) - pickU64(pre(ghost_state(old)) != 2, uint64(weightOf(old)), 0)
@@ -1305,21 +1324,29 @@ func estOf[K comparable](s *sketch[K], k K) uint64 {
 // ---------------------------------------------------------------------------------------------
 
 //@ func LoadCacheFrom : C19 C03
+//@   counted
 //@   requires c != nil && c.cache != nil && cfg(c.cache) && c.cache.singleflight != nil
 //@   modifies *
 //@   loop 1: invariant [wiring-kept] c.cache != nil && cfg(c.cache) && c.cache.singleflight != nil
-//@   site Set: requires [C19:expired-not-loaded] !c.cache.withExpiration || entry.ExpiresAtNano > nowNano
+//@   site Set: requires [C19:expired-not-loaded] !c.cache.withExpiration || (ghost_clockRead() && entry.ExpiresAtNano > ghost_now())
 //@   site Set: requires [C19:bound-respected] size < maximum
 //@   site Set: requires [C19:loads-exactly-the-saved-entry] same(entry.Key, ghost_decoded_Key[K]()) && same(entry.Value, ghost_decoded_Value[V]()) && entry.ExpiresAtNano == ghost_decoded_ExpiresAtNano() && entry.RefreshableAtNano == ghost_decoded_RefreshableAtNano() && entry.Weight == ghost_decoded_Weight()
-//@   site SetExpiresAfter: requires [C19:deadline-restored] c.cache.withExpiration && entry.ExpiresAtNano != math.MaxInt64 && int64(expiresAfter) == entry.ExpiresAtNano-nowNano && expiresAfter > 0
-//@   site SetRefreshableAfter: requires [C19:refresh-restored-or-due] c.cache.withRefresh && entry.RefreshableAtNano != math.MaxInt64 && (entry.RefreshableAtNano > nowNano ==> int64(refreshableAfter) == entry.RefreshableAtNano-nowNano) && (entry.RefreshableAtNano >= 0 && entry.RefreshableAtNano <= nowNano ==> refreshableAfter == 1)
+//@   site SetExpiresAfter: requires [C19:deadline-restored] c.cache.withExpiration && entry.ExpiresAtNano != math.MaxInt64 && ghost_clockRead() && int64(expiresAfter) == entry.ExpiresAtNano-ghost_now() && expiresAfter > 0
+//@   site SetRefreshableAfter: requires [C19:refresh-restored-or-due] c.cache.withRefresh && entry.RefreshableAtNano != math.MaxInt64 && ghost_clockRead() && (entry.RefreshableAtNano > ghost_now() ==> int64(refreshableAfter) == entry.RefreshableAtNano-ghost_now()) && (entry.RefreshableAtNano >= 0 && entry.RefreshableAtNano <= ghost_now() ==> refreshableAfter == 1)
 
 //@ func SaveCacheToFile : C19
 //@   requires c != nil && c.cache != nil && cfg(c.cache) && c.cache.singleflight != nil
 //@   modifies *
+//@   ensures [C19:the-save-runs-and-its-outcome-is-reported] result == nil ==> ghost_calls_SaveCacheTo() == pre(ghost_calls_SaveCacheTo()) + 1 && ghost_last_SaveCacheTo_result() == nil
 //@   site SaveCacheTo: requires [C19:the-file-holds-nothing-but-this-save] ghost_fileTruncated(file)
 
+//@ func LoadCacheFromFile : C19
+//@   requires c != nil && c.cache != nil && cfg(c.cache) && c.cache.singleflight != nil
+//@   modifies *
+//@   ensures [C19:the-load-runs-and-its-outcome-is-reported] result == nil ==> ghost_calls_LoadCacheFrom() == pre(ghost_calls_LoadCacheFrom()) + 1 && ghost_last_LoadCacheFrom_result() == nil
+
 //@ func SaveCacheTo : C19
+//@   counted
 //@   requires c != nil && c.cache != nil && cfg(c.cache) && c.cache.singleflight != nil
 //@   modifies *
 //@   site SaveCacheTo$1.Encode: requires [C19:only-live-entries-within-the-bound-are-saved] size < maximum && (!c.cache.withExpiration || entry.ExpiresAtNano > entry.SnapshotAtNano)
@@ -1355,6 +1382,7 @@ func estOf[K comparable](s *sketch[K], k K) uint64 {
 //@   loop doBulkCall$1:2: invariant [C08:no-other-call-released] cstar != nil && !(mapHas(callsInBulk, cstar.key) && callsInBulk[cstar.key] == cstar) ==> ghost_wgDone(cstar) == entry(ghost_wgDone(cstar))
 //@   loop doBulkCall$1:2: invariant [clock-stable] pre(ghost_clockRead()) ==> ghost_clockRead() && ghost_now() == pre(ghost_now())
 //@   ensures [clock-stable] pre(ghost_clockRead()) ==> ghost_clockRead() && ghost_now() == pre(ghost_now())
+//@   ensures on-panic [C20:a-bulk-loader-panic-is-returned-as-an-error-never-raised-past-the-load-accounting] false
 //@   ensures [C08:every-call-of-the-bulk-is-finished-exactly-once] pre(mapHas(callsInBulk, kstar)) ==> ghost_wgDone(callsInBulk[kstar]) == pre(ghost_wgDone(callsInBulk[kstar])) + pickInt(callsInBulk[kstar].isFake, 0, 1)
 //@   ensures [C08:every-call-of-the-bulk-has-its-waiters-released] pre(mapHas(callsInBulk, kstar)) && !callsInBulk[kstar].isFake ==> ghost_released(callsInBulk[kstar])
 //@   ensures [C08:no-other-call-is-released] cstar != nil && !(mapHas(callsInBulk, cstar.key) && callsInBulk[cstar.key] == cstar) ==> ghost_wgDone(cstar) == pre(ghost_wgDone(cstar))
@@ -1445,6 +1473,14 @@ func estOf[K comparable](s *sketch[K], k K) uint64 {
 //@ func (*cache).BulkGet : C10 C08 C20 C11 C01 C03
 //@   var kstar K
 //@   var cstar *call[K, V]
+//@   var kq K
+//@   var jstar int
+//@   note kq stands for any key that is not among the requested ones: the hypothesis below is the case distinction of the theorem "a key that was not requested is not returned", not an assumption about the code
+//@   loop 1: assume [hypothesis-kq-is-not-requested] 0 <= jstar && jstar < len(keys) ==> !same(keys[jstar], kq)
+//@   loop 1: invariant [C10:unrequested-keys-are-neither-hits-nor-misses] !mapHas(result, kq) && !mapHas(misses, kq)
+//@   loop 2: invariant [C10:unrequested-keys-are-neither-hits-nor-misses] !mapHas(result, kq) && !mapHas(misses, kq)
+//@   loop 3: invariant [C10:unrequested-keys-are-neither-hits-nor-misses] !mapHas(result, kq) && !mapHas(misses, kq)
+//@   ensures [C10:only-requested-keys-are-returned] !mapHas(r0, kq)
 //@   requires cfg(c) && c.singleflight != nil && ghost_calls_load() == 0
 //@   modifies *
 //@   site getNode: requires [C20:each-distinct-key-looked-up-once] !mapHas(result, key) && !mapHas(misses, key)
@@ -1471,3 +1507,326 @@ func estOf[K comparable](s *sketch[K], k K) uint64 {
 //@   site doBulkCall: callback-invariant cfg(c) && c.singleflight.calls != nil && c.singleflight.isInitialized.Load()
 
 //@   ensures [wiring-kept] pre(wired(c)) ==> wired(c)
+
+// ---------------------------------------------------------------------------------------------
+// Public wrappers (cache.go): every method of Cache is exactly one call of the method of the same name of the
+// implementation, on c.cache, with the arguments passed through in order and the results returned unchanged. The
+// preconditions and postconditions of the implementation are thereby those of the public method.
+// ---------------------------------------------------------------------------------------------
+
+//@ func (*Cache).GetIfPresent : C01 C03 C20
+//@   modifies *
+//@   delegates (*cache).GetIfPresent on c.cache
+
+//@ func (*Cache).GetEntry : C01 C03 C20
+//@   modifies *
+//@   delegates (*cache).GetEntry on c.cache
+
+//@ func (*Cache).GetEntryQuietly : C01 C03 C20
+//@   modifies *
+//@   delegates (*cache).GetEntryQuietly on c.cache
+
+//@ func (*Cache).Set : C01 C03 C06 C09
+//@   modifies *
+//@   delegates (*cache).Set on c.cache
+
+//@ func (*Cache).SetIfAbsent : C01 C03 C06 C09
+//@   modifies *
+//@   delegates (*cache).SetIfAbsent on c.cache
+
+//@ func (*Cache).Compute : C01 C03 C06 C09 C20
+//@   modifies *
+//@   delegates (*cache).Compute on c.cache
+
+//@ func (*Cache).ComputeIfAbsent : C01 C03 C20
+//@   modifies *
+//@   delegates (*cache).ComputeIfAbsent on c.cache
+
+//@ func (*Cache).ComputeIfPresent : C01 C03 C20
+//@   modifies *
+//@   delegates (*cache).ComputeIfPresent on c.cache
+
+//@ func (*Cache).SetExpiresAfter : C12 C03 C01 C20 C07
+//@   modifies *
+//@   delegates (*cache).SetExpiresAfter on c.cache
+
+//@ func (*Cache).SetRefreshableAfter : C12 C03 C01 C20
+//@   modifies *
+//@   delegates (*cache).SetRefreshableAfter on c.cache
+
+//@ func (*Cache).Get : C08 C10 C11 C20 C01 C03
+//@   modifies *
+//@   delegates (*cache).Get on c.cache
+
+//@ func (*Cache).BulkGet : C10 C08 C20 C11 C01 C03
+//@   modifies *
+//@   delegates (*cache).BulkGet on c.cache
+
+//@ func (*Cache).Refresh : C11 C20
+//@   modifies *
+//@   delegates (*cache).Refresh on c.cache
+
+//@ func (*Cache).BulkRefresh : C11 C20 C03
+//@   modifies *
+//@   delegates (*cache).BulkRefresh on c.cache
+
+//@ func (*Cache).Invalidate : C01 C03 C06 C09 C20 C05 C13 C07 C04
+//@   modifies *
+//@   delegates (*cache).Invalidate on c.cache
+
+//@ func (*Cache).All : C01 C03
+//@   modifies *
+//@   delegates (*cache).All on c.cache
+
+//@ func (*Cache).Keys : C01 C03
+//@   modifies *
+//@   delegates (*cache).Keys on c.cache
+
+//@ func (*Cache).Values : C01 C03
+//@   modifies *
+//@   delegates (*cache).Values on c.cache
+
+//@ func (*Cache).CleanUp : C13 C04 C05
+//@   modifies *
+//@   delegates (*cache).CleanUp on c.cache
+
+//@ func (*Cache).SetMaximum : C04 C07
+//@   modifies *
+//@   delegates (*cache).SetMaximum on c.cache
+
+//@ func (*Cache).GetMaximum : C04
+//@   modifies *
+//@   delegates (*cache).GetMaximum on c.cache
+
+//@ func (*Cache).WeightedSize : C05
+//@   modifies *
+//@   delegates (*cache).WeightedSize on c.cache
+
+// ---------------------------------------------------------------------------------------------
+// Remaining public methods of the implementation
+// ---------------------------------------------------------------------------------------------
+
+//@ func (*cache).Hottest : C01 C03 C19 C05
+//@   modifies *
+//@   delegates (*cache).evictionOrder on c args true
+
+//@ func (*cache).Coldest : C01 C03 C05
+//@   modifies *
+//@   delegates (*cache).evictionOrder on c args false
+
+//@ func (*cache).IsWeighted : C04 C05
+//@   ensures [C05:reports-the-configuration] result == c.isWeighted
+
+//@ func (*cache).IsRecordingStats : C20
+//@   ensures [C20:reports-the-configuration] result == c.withStats
+
+//@ func (*Cache).Hottest : C01 C03 C19 C05
+//@   modifies *
+//@   delegates (*cache).Hottest on c.cache
+
+//@ func (*Cache).Coldest : C01 C03 C05
+//@   modifies *
+//@   delegates (*cache).Coldest on c.cache
+
+//@ func (*Cache).IsWeighted : C04 C05
+//@   modifies *
+//@   delegates (*cache).IsWeighted on c.cache
+
+//@ func (*Cache).IsRecordingStats : C20
+//@   modifies *
+//@   delegates (*cache).IsRecordingStats on c.cache
+
+// ---------------------------------------------------------------------------------------------
+// Calculator constructors (C12): the policy each constructor names, stated behaviourally
+// ---------------------------------------------------------------------------------------------
+
+func asExpiryCreating[K comparable, V any](c ExpiryCalculator[K, V]) *varExpiryCreating[K, V] {
+	w, _ := c.(*varExpiryCreating[K, V])
+	return w
+}
+
+func asExpiryWriting[K comparable, V any](c ExpiryCalculator[K, V]) *varExpiryWriting[K, V] {
+	w, _ := c.(*varExpiryWriting[K, V])
+	return w
+}
+
+func asExpiryAccessing[K comparable, V any](c ExpiryCalculator[K, V]) *varExpiryAccessing[K, V] {
+	w, _ := c.(*varExpiryAccessing[K, V])
+	return w
+}
+
+func asRefreshCreating[K comparable, V any](c RefreshCalculator[K, V]) *varRefreshCreating[K, V] {
+	w, _ := c.(*varRefreshCreating[K, V])
+	return w
+}
+
+func asRefreshWriting[K comparable, V any](c RefreshCalculator[K, V]) *varRefreshWriting[K, V] {
+	w, _ := c.(*varRefreshWriting[K, V])
+	return w
+}
+
+//@ func ExpiryCreating : C12
+//@   var estar Entry[K, V]
+//@   var vstar V
+//@   ensures [C12:creation-only-policy] result != nil && result.ExpireAfterCreate(estar) == duration && result.ExpireAfterUpdate(estar, vstar) == estar.ExpiresAfter() && result.ExpireAfterRead(estar) == estar.ExpiresAfter()
+
+//@ func ExpiryWriting : C12
+//@   var estar Entry[K, V]
+//@   var vstar V
+//@   ensures [C12:write-reset-policy] result != nil && result.ExpireAfterCreate(estar) == duration && result.ExpireAfterUpdate(estar, vstar) == duration && result.ExpireAfterRead(estar) == estar.ExpiresAfter()
+
+//@ func ExpiryAccessing : C12
+//@   var estar Entry[K, V]
+//@   var vstar V
+//@   ensures [C12:access-reset-policy] result != nil && result.ExpireAfterCreate(estar) == duration && result.ExpireAfterUpdate(estar, vstar) == duration && result.ExpireAfterRead(estar) == duration
+
+//@ func ExpiryCreatingFunc : C12
+//@   inline verified on its own; the fixed-duration constructor executes it
+//@   ensures [C12:creation-only-policy-with-the-given-function] asExpiryCreating(result) != nil && same(asExpiryCreating(result).f, f)
+
+//@ func ExpiryWritingFunc : C12
+//@   inline verified on its own; the fixed-duration constructor executes it
+//@   ensures [C12:write-reset-policy-with-the-given-function] asExpiryWriting(result) != nil && same(asExpiryWriting(result).f, f)
+
+//@ func ExpiryAccessingFunc : C12
+//@   inline verified on its own; the fixed-duration constructor executes it
+//@   ensures [C12:access-reset-policy-with-the-given-function] asExpiryAccessing(result) != nil && same(asExpiryAccessing(result).f, f)
+
+//@ func RefreshCreating : C12 C11
+//@   var estar Entry[K, V]
+//@   var vstar V
+//@   var errstar error
+//@   ensures [C12:refresh-creation-only-policy] result != nil && result.RefreshAfterCreate(estar) == duration && result.RefreshAfterUpdate(estar, vstar) == estar.RefreshableAfter() && result.RefreshAfterReload(estar, vstar) == estar.RefreshableAfter() && result.RefreshAfterReloadFailure(estar, errstar) == estar.RefreshableAfter()
+
+//@ func RefreshWriting : C12 C11
+//@   var estar Entry[K, V]
+//@   var vstar V
+//@   var errstar error
+//@   ensures [C12:refresh-write-reset-policy] result != nil && result.RefreshAfterCreate(estar) == duration && result.RefreshAfterUpdate(estar, vstar) == duration && result.RefreshAfterReload(estar, vstar) == duration && result.RefreshAfterReloadFailure(estar, errstar) == estar.RefreshableAfter()
+
+//@ func RefreshCreatingFunc : C12 C11
+//@   inline verified on its own; the fixed-duration constructor executes it
+//@   ensures [C12:refresh-creation-only-policy-with-the-given-function] asRefreshCreating(result) != nil && same(asRefreshCreating(result).f, f)
+
+//@ func RefreshWritingFunc : C12 C11
+//@   inline verified on its own; the fixed-duration constructor executes it
+//@   ensures [C12:refresh-write-reset-policy-with-the-given-function] asRefreshWriting(result) != nil && same(asRefreshWriting(result).f, f)
+
+// ---------------------------------------------------------------------------------------------
+// Adaptors: loader function types, the time source wrapped around a user clock
+// ---------------------------------------------------------------------------------------------
+
+func ghost_calls_lf() int                  { panic("ghost") }
+func ghost_ret_lf_0[V any]() V             { panic("ghost") }
+func ghost_ret_lf_1() error                { panic("ghost") }
+func ghost_calls_blf() int                 { panic("ghost") }
+func ghost_ret_blf_0[K comparable, V any]() map[K]V { panic("ghost") }
+func ghost_ret_blf_1() error               { panic("ghost") }
+
+func asCustomSource(t timeSource) *customSource {
+	c, _ := t.(*customSource)
+	return c
+}
+
+func ghost_arg_lf_0() context.Context      { panic("ghost") }
+func ghost_arg_lf_1[K comparable]() K      { panic("ghost") }
+func ghost_arg_blf_0() context.Context     { panic("ghost") }
+func ghost_arg_blf_1[K comparable]() []K   { panic("ghost") }
+
+func asFakeSource(t Clock) *fakeSource {
+	c, _ := t.(*fakeSource)
+	return c
+}
+
+func asRealSource(t Clock) *realSource {
+	c, _ := t.(*realSource)
+	return c
+}
+
+//@ func LoaderFunc.Load : C08 C10
+//@   modifies ghost_calls_lf(), ghost_ret_lf_0(), ghost_ret_lf_1(), ghost_arg_lf_0(), ghost_arg_lf_1()
+//@   ensures [C10:the-function-is-the-loader] ghost_calls_lf() == pre(ghost_calls_lf()) + 1 && same(r0, ghost_ret_lf_0[V]()) && r1 == ghost_ret_lf_1() && same(ghost_arg_lf_1[K](), key)
+
+//@ func LoaderFunc.Reload : C08 C10 C11
+//@   modifies ghost_calls_lf(), ghost_ret_lf_0(), ghost_ret_lf_1(), ghost_arg_lf_0(), ghost_arg_lf_1()
+//@   ensures [C10:the-function-is-the-reloader] ghost_calls_lf() == pre(ghost_calls_lf()) + 1 && same(r0, ghost_ret_lf_0[V]()) && r1 == ghost_ret_lf_1() && same(ghost_arg_lf_1[K](), key)
+
+//@ func BulkLoaderFunc.BulkLoad : C08 C10
+//@   modifies ghost_calls_blf(), ghost_ret_blf_0(), ghost_ret_blf_1(), ghost_arg_blf_0(), ghost_arg_blf_1()
+//@   ensures [C10:the-function-is-the-bulk-loader] ghost_calls_blf() == pre(ghost_calls_blf()) + 1 && same(r0, ghost_ret_blf_0[K, V]()) && r1 == ghost_ret_blf_1() && same(ghost_arg_blf_1[K](), keys)
+
+//@ func BulkLoaderFunc.BulkReload : C08 C10 C11
+//@   modifies ghost_calls_blf(), ghost_ret_blf_0(), ghost_ret_blf_1(), ghost_arg_blf_0(), ghost_arg_blf_1()
+//@   ensures [C10:the-function-is-the-bulk-reloader] ghost_calls_blf() == pre(ghost_calls_blf()) + 1 && same(r0, ghost_ret_blf_0[K, V]()) && r1 == ghost_ret_blf_1() && same(ghost_arg_blf_1[K](), keys)
+
+//@ func (*customSource).NowNano : C12 C13 C03
+//@   note the reading of the user's clock is the ghost ghost_now(); ghost_clockRead() records that the clock was consulted
+//@   modifies ghost_now(), ghost_clockRead()
+//@   ensures [C12:a-user-clock-is-read-through] cs.isInitialized.Load() ==> result == ghost_now() && ghost_clockRead()
+//@   ensures [C12:an-uninitialised-clock-reads-zero] !cs.isInitialized.Load() ==> result == 0 && ghost_clockRead() == pre(ghost_clockRead())
+
+//@ func (*customSource).Init : C12 C13
+//@   modifies cs.isInitialized
+//@   ensures [C12:initialised] cs.isInitialized.Load()
+
+//@ func newTimeSource : C12 C13 C03
+//@   ensures [C12:no-clock-means-the-real-one] clock == nil ==> asRealSource(result) != nil
+//@   ensures [C12:a-user-clock-is-wrapped-unchanged] clock != nil && asRealSource(clock) == nil && asFakeSource(clock) == nil ==> asCustomSource(result) != nil && asCustomSource(result).clock == clock && !asCustomSource(result).isInitialized.Load()
+
+// removal causes: an eviction is exactly a removal for size or for expiration
+//@ func DeletionCause.IsEviction : C06 C07
+//@   ensures [C07:eviction-causes] (dc == CauseOverflow || dc == CauseExpiration) ==> result
+//@   ensures [C07:explicit-removals-are-no-evictions] (dc == CauseInvalidation || dc == CauseReplacement) ==> !result
+
+//@ func DeletionEvent.WasEvicted : C06 C07
+//@   ensures [C07:event-eviction-causes] (de.Cause == CauseOverflow || de.Cause == CauseExpiration) ==> result
+//@   ensures [C07:event-explicit-removals-are-no-evictions] (de.Cause == CauseInvalidation || de.Cause == CauseReplacement) ==> !result
+
+// ---------------------------------------------------------------------------------------------
+// Construction: how the options become the configuration that every other contract assumes (cfg / wired)
+// ---------------------------------------------------------------------------------------------
+
+//@ func (*Options).getMaximum : C04 C07
+//@   ensures [C04:maximum-from-options] result == pickU64(o.MaximumSize > 0, uint64(o.MaximumSize), pickU64(o.MaximumWeight > 0, o.MaximumWeight, 0))
+
+
+// ---------------------------------------------------------------------------------------------
+// InvalidateAll: pending write events are applied first, then every entry is discarded as an invalidation, under the
+// eviction lock while the write buffer has room and one by one afterwards
+// ---------------------------------------------------------------------------------------------
+
+func ghost_last_afterDelete_alreadyLocked() bool               { panic("ghost") }
+func ghost_last_afterDelete_nowNano() int64                    { panic("ghost") }
+func ghost_calls_TryPop() int                                  { panic("ghost") }
+func ghost_last_TryPop_result[K comparable, V any]() *task[K, V] { panic("ghost") }
+
+func ghost_calls_deleteNode() int { panic("ghost") }
+
+//@ func (*cache).deleteNode : C05 C06 C01 C03
+//@   counted
+//@   var arg0 *cache[K, V]
+//@   var arg1 node.Node[K, V]
+//@   var arg2 int64
+//@   var arg3 DeletionCause
+//@   requires [configured] cfg(c) && c.singleflight != nil
+//@   requires [node-exists] n != nil
+//@   modifies $CACHEFX0, ghost_calls_deleteNode()
+//@   calls-only (*cache).deleteNodeFromMap, (*cache).afterDelete
+//@   site deleteNodeFromMap: requires [C06:a-discarded-entry-is-removed-as-an-invalidation] arg0 == c && arg1 == n && arg2 == nowNano && arg3 == CauseInvalidation
+//@   ensures [C05:the-policies-are-told-under-the-lock-about-exactly-the-removed-node] ghost_calls_afterDelete() == pre(ghost_calls_afterDelete()) + 1 && ghost_last_afterDelete_alreadyLocked() && ghost_last_afterDelete_nowNano() == nowNano && (ghost_last_afterDelete_deleted[K, V]() == nil || ghost_last_afterDelete_deleted[K, V]() == n)
+//@   ensures [wiring-kept] pre(wired(c)) ==> wired(c)
+
+//@ func (*cache).InvalidateAll : C01 C03 C05 C06
+//@   var jstar int
+//@   requires cfg(c) && c.singleflight != nil
+//@   modifies *
+//@   site DrainTo: callback-invariant cfg(c) && c.singleflight != nil
+//@   site TryPop: assume [A-buffer] t == nil || (taskWf(t) && ghost_buffered(t))
+//@   loop 1: invariant [wiring] cfg(c) && c.singleflight != nil && ghost_calls_deleteNode() == pre(ghost_calls_deleteNode())
+//@   loop InvalidateAll$2:0: invariant [wiring] cfg(c) && c.singleflight != nil
+//@   loop InvalidateAll$2:0: invariant [collected-nodes-exist] 0 <= jstar && jstar < len(nodes) ==> nodes[jstar] != nil
+//@   loop 2: invariant [wiring] cfg(c) && c.singleflight != nil
+//@   loop 2: invariant [collected-nodes-exist] 0 <= jstar && jstar < len(nodes) ==> nodes[jstar] != nil
+//@   loop 3: invariant [wiring] cfg(c) && c.singleflight != nil
+//@   site runTask: requires [C05:pending-write-events-are-applied-before-any-entry-is-discarded] ghost_calls_deleteNode() == pre(ghost_calls_deleteNode())
+//@   ensures [wiring-kept] wired(c)
